@@ -2,10 +2,10 @@
 # dev tool: seedimport.sh C05 [round]  -> copies /tmp/seed_out<round>/C05/{patch,demo,meta}_{A,B} into /verif/seeded/
 # round 1 (default): C05_A, C05_B;  round 2: C05_C, C05_D;  round 3: C05_E, C05_F
 P=$1; R=${2:-1}
-SRC=/tmp/seed_out; [ "$R" = "2" ] && SRC=/tmp/seed_out2; [ "$R" = "3" ] && SRC=/tmp/seed_out3; [ "$R" = "4" ] && SRC=/tmp/seed_out4
+SRC=/tmp/seed_out; [ "$R" = "2" ] && SRC=/tmp/seed_out2; [ "$R" = "3" ] && SRC=/tmp/seed_out3; [ "$R" = "4" ] && SRC=/tmp/seed_out4; [ "$R" = "5" ] && SRC=/tmp/seed_out5
 for v in A B; do
   [ -f $SRC/$P/patch_$v.diff ] || continue
-  t=$v; [ "$R" = "2" ] && { [ $v = A ] && t=C || t=D; }; [ "$R" = "3" ] && { [ $v = A ] && t=E || t=F; }; [ "$R" = "4" ] && { [ $v = A ] && t=G || t=H; }
+  t=$v; [ "$R" = "2" ] && { [ $v = A ] && t=C || t=D; }; [ "$R" = "3" ] && { [ $v = A ] && t=E || t=F; }; [ "$R" = "4" ] && { [ $v = A ] && t=G || t=H; }; [ "$R" = "5" ] && { [ $v = A ] && t=I || t=J; }
   d=/verif/seeded/${P}_$t; mkdir -p $d
   cp $SRC/$P/patch_$v.diff $d/patch.diff
   cp $SRC/$P/demo_$v.py $d/demo.py
